@@ -1,6 +1,7 @@
 SPECIFICATION Spec
 CONSTANTS MaxOps = 5  Dev = {}
 INVARIANT NoLeak
+INVARIANT KidIsOwn
 INVARIANT CallerDictsUntouched
 INVARIANT Export
 CHECK_DEADLOCK FALSE
